@@ -13,6 +13,7 @@ open Emboss.Fmt Driver
 * `TABLE` — evaluates the table obligations of Spec/Fmt.lean on the regenerated registry
   (`tableTyped formatters`, `tableMatchesGrammar formatters grammar`): `ok`, or `bad …`
   naming the first offending entries.
+* `SANITYLEN …` — the same with the length comparison of fixes/C11-sanity-check-length.patch.
 * `SANITY <formatted tokens> <original tokens>` — each a `,`-separated list of
   `<hex symbol>:<hex text>` (`-` for the empty list).  Answer: `ok`, `differs <i>`,
   `indexerror <i>`.
@@ -131,6 +132,16 @@ def handle (line : String) : String :=
       | .ok => "ok"
       | .differs i => "differs " ++ toString i
       | .indexError i => "indexerror " ++ toString i
+      | .countDiffers => "countdiffers"
+    | _, _ => "bad-op"
+  | ["SANITYLEN", f, o] =>
+    match parseToks f, parseToks o with
+    | some f, some o =>
+      match sanityCheckLen f o with
+      | .ok => "ok"
+      | .differs i => "differs " ++ toString i
+      | .indexError i => "indexerror " ++ toString i
+      | .countDiffers => "countdiffers"
     | _, _ => "bad-op"
   | _ => "bad-op"
 
